@@ -131,6 +131,7 @@ func loadProg(repo string) (*Prog, error) {
 	})
 	p.indexCalls()
 	p.LoadS = time.Since(t0).Seconds()
+	theProg = p
 	return p, nil
 }
 
